@@ -16,7 +16,7 @@ ID = 'C13'
 RULE = ('IPv4: every combination of 13 boundary octets (exhaustive), every value 0..255 in every position, Hypothesis over 2^32 with '
         'optional leading zeros; IPv6: 128-bit values (random, sparse, single hextet, all-ones) in exploded / compressed / no-leading-zero '
         '/ upper-case spellings; GUID: 128 bits x {dashed, braced, upper-case, undashed}; near-miss invalid addresses (soundness only); '
-        'grammar-generated e-mail / URL (TLD from BaseURL.TldList) / hashtag / mention / phone literals; each alone or in a carrier sentence, '
+        'grammar-generated e-mail / URL (TLD from BaseURL.TldList) / hashtag / mention / phone literals; each alone or in a carrier sentence, and pairs of two different literals of one kind in one query; '
         'separated by blanks; non-trivial = IP with a boundary octet, a compressed run or upper-case hex, any literal inside a carrier '
         '(start > 0), or a near-miss on which something was reported; distinct = distinct (kind, query)')
 ASSUMPTIONS = ['carrier sentences are static lists (chosen so that they contain no sequence entity and do not glue to the literal)',
@@ -112,7 +112,42 @@ def run_nearmiss(case):
              obs={'query': q, 'entities': got}, key=['nearmiss', q])
 
 
+def run_pair(case):
+    """two different literals of one kind in one query: exactly two entities, each with its own span, text and value"""
+    kind = case['kind']
+    a, b = case['lits']
+    q = case['frame'].format(a, b)
+    pa = q.index(a)
+    pb = q.index(b, pa + len(a))
+    got = ents(kind, q)
+    vs = []
+    want = [(pa, pa + len(a) - 1, a.lower()), (pb, pb + len(b) - 1, b.lower())]
+    have = [(g['start'], g['end'], (g['text'] or '').lower()) for g in got]
+    if have != want:
+        vs.append(V('PAIR_NOT_RECOGNISED_EXACTLY', {'query': q, 'expected': want, 'got': got}, bucket='PAIR:' + kind))
+    for g in got:
+        if kind == 'ip':
+            vs.extend(ip_sound(q, g, 'pair'))
+        elif (g['value'] or '').lower() != (g['text'] or '').lower():
+            vs.append(V('VALUE_NOT_TEXT', {'query': q, 'got': g}, bucket='VALUE:pair:' + kind))
+    return R(vs, nontrivial=True, labels=[kind, 'pair'], obs={'query': q, 'entities': got}, key=[kind, q])
+
+
+def pair_cases():
+    frames = st.sampled_from(['{} {}', 'from {} to {}', '{} and then {} again', 'first {} , second {} .'])
+
+    def two(strat):
+        return st.tuples(strat, strat).filter(lambda t: t[0]['lit'].lower() != t[1]['lit'].lower() and t[0]['lit'].lower() not in t[1]['lit'].lower()
+                                              and t[1]['lit'].lower() not in t[0]['lit'].lower())
+    def mk(t, frame):
+        return {'pair': True, 'kind': t[0]['kind'], 'lits': [t[0]['lit'], t[1]['lit']], 'frame': frame}
+    return st.one_of(st.builds(mk, two(v4_cases()), frames), st.builds(mk, two(v6_cases()), frames), st.builds(mk, two(guid_cases()), frames),
+                     st.builds(mk, two(email_cases()), frames), st.builds(mk, two(tag_cases().filter(lambda k: k['kind'] == 'hashtag')), frames))
+
+
 def run_any(case):
+    if case.get('pair'):
+        return run_pair(case)
     return run_nearmiss(case) if case.get('nearmiss') else run_literal(case)
 
 
@@ -317,4 +352,5 @@ def parts(tier, seed):
         hyp_part('url', url_cases, run_literal, 800 if q else 50000, min_shard=100),
         hyp_part('hashtag-mention', tag_cases, run_literal, 800 if q else 50000, min_shard=100),
         hyp_part('phone', phone_cases, run_literal, 800 if q else 50000, min_shard=100),
+        hyp_part('pairs-in-one-query', pair_cases, run_pair, 1500 if q else 40000, min_shard=150),
     ]
